@@ -111,3 +111,103 @@ class LineMap:
 
     def report(self):
         return {f: sorted(v) for f, v in self.hit.items()}
+
+
+class ArgMap:
+    """Which optional parameters of the library's functions did the monitored workloads ever set? (diagnostic, armed only when
+    VMON_ARGMAP names a directory.) On every entry of a ginjax function that has parameters with defaults, the values bound in
+    the new frame are compared with the defaults; a parameter that never receives a non-default value under any workload is an
+    option the monitors have never seen in use. Each code object is sampled for at most CAP entries."""
+
+    TOOL = 2
+    CAP = 400
+
+    def __init__(self, root):
+        self.root = root
+        self.defaults = {}  # code -> (qualified name, {param: default})
+        self.seen = {}  # qualified name -> {"calls": n, "params": {param: [n_nondefault, sample repr]}}
+        self.armed = False
+
+    def _collect(self):
+        import inspect
+
+        for name, mod in list(sys.modules.items()):
+            if mod is None or not name.startswith("ginjax"):
+                continue
+            for attr, obj in list(vars(mod).items()):
+                objs = [(attr, obj)]
+                if inspect.isclass(obj) and getattr(obj, "__module__", "").startswith("ginjax"):
+                    objs = [(f"{attr}.{a}", o) for a, o in vars(obj).items()]
+                for qn, o in objs:
+                    if isinstance(o, (staticmethod, classmethod)):
+                        o = o.__func__
+                    hops = 0
+                    while not hasattr(o, "__code__") and hops < 8:
+                        hops += 1
+                        for a in ("__wrapped__", "_fun", "fun", "func", "__func__"):
+                            if hasattr(o, a):
+                                o = getattr(o, a)
+                                break
+                        else:
+                            break
+                    code = getattr(o, "__code__", None)
+                    if code is None or not code.co_filename.startswith(self.root) or code in self.defaults:
+                        continue
+                    try:
+                        sig = inspect.signature(o)
+                    except (TypeError, ValueError):
+                        continue
+                    d = {p.name: p.default for p in sig.parameters.values() if p.default is not inspect.Parameter.empty}
+                    if d:
+                        self.defaults[code] = (f"{code.co_filename[len(self.root):].lstrip('/')}:{qn}", d)
+
+    @staticmethod
+    def _differs(v, d):
+        if v is d:
+            return False
+        if d is None or v is None:
+            return True
+        if isinstance(d, (bool, int, float, str, tuple)) and isinstance(v, (bool, int, float, str, tuple)):
+            try:
+                return not (type(v) is type(d) and v == d) and not (not isinstance(d, bool) and not isinstance(v, bool) and isinstance(d, (int, float)) and isinstance(v, (int, float)) and v == d)
+            except Exception:
+                return True
+        return True
+
+    def arm(self):
+        if not hasattr(sys, "monitoring"):
+            return
+        mon = sys.monitoring
+        try:
+            mon.use_tool_id(self.TOOL, "vmon-argmap")
+        except ValueError:
+            return
+        self._collect()
+
+        def on_start(code, off):
+            ent = self.defaults.get(code)
+            if ent is None:
+                return mon.DISABLE
+            qn, d = ent
+            rec = self.seen.setdefault(qn, {"calls": 0, "params": {p: [0, None] for p in d}})
+            rec["calls"] += 1
+            fr = sys._getframe(1)
+            loc = fr.f_locals
+            for p, dv in d.items():
+                if p in loc and self._differs(loc[p], dv):
+                    slot = rec["params"][p]
+                    slot[0] += 1
+                    if slot[1] is None:
+                        slot[1] = repr(loc[p])[:60]
+            if rec["calls"] >= self.CAP:
+                return mon.DISABLE
+
+        mon.register_callback(self.TOOL, mon.events.PY_START, on_start)
+        for code in self.defaults:
+            mon.set_local_events(self.TOOL, code, mon.events.PY_START)
+        self.armed = True
+
+    def report(self):
+        out = {qn: {"calls": 0, "params": {p: [0, None] for p in d}} for qn, d in self.defaults.values()}
+        out.update(self.seen)
+        return out
